@@ -124,4 +124,121 @@ def connectPlan (t : Transport) (u : Uri) : Except ConnErr Plan := do
   | none => throw .badConfig
   | some cfg => pure ⟨if t.usesHost then u.host else none, port, if t.usesPath then some u.path else none, cfg⟩
 
+/-! ## what `connect()` programs into the socket
+
+  Trusted base, written down from the kernel headers (not from gallia):
+
+    linux/can.h        CAN_EFF_FLAG 0x80000000, CAN_SFF_MASK 0x7FF, CAN_EFF_MASK 0x1FFFFFFF
+                       SOL_CAN_BASE 100, CAN_RAW 1, CAN_ISOTP 6
+    linux/can/raw.h    SOL_CAN_RAW = SOL_CAN_BASE + CAN_RAW, CAN_RAW_FD_FRAMES 5
+    linux/can/isotp.h  SOL_CAN_ISOTP = SOL_CAN_BASE + CAN_ISOTP; CAN_ISOTP_OPTS 1, CAN_ISOTP_RECV_FC 2, CAN_ISOTP_LL_OPTS 5
+                       CAN_ISOTP_EXTEND_ADDR 0x002, CAN_ISOTP_TX_PADDING 0x004, CAN_ISOTP_RX_PADDING 0x008, CAN_ISOTP_RX_EXT_ADDR 0x200
+                       struct can_isotp_options    { __u32 flags; __u32 frame_txtime; __u8 ext_address; __u8 txpad_content;
+                                                     __u8 rxpad_content; __u8 rx_ext_address; }
+                       struct can_isotp_fc_options { __u8 bs; __u8 stmin; __u8 wftmax; }
+                       struct can_isotp_ll_options { __u8 mtu; __u8 tx_dl; __u8 tx_flags; }
+                       CAN_ISOTP_DEFAULT_FRAME_TXTIME is the kernel's; gallia's `ISOTPConfig.frame_txtime` defaults to 10, `tx_dl` to 64,
+                       CANFD_MTU 72
+
+  `__u32` in host byte order: little endian (stated assumption of the check).
+-/
+
+def solCanRaw : Nat := 101
+def canRawFdFrames : Nat := 5
+def solCanIsotp : Nat := 106
+def canIsotpOpts : Nat := 1
+def canIsotpRecvFc : Nat := 2
+def canIsotpLlOpts : Nat := 5
+def fExtendAddr : Nat := 0x002
+def fTxPadding : Nat := 0x004
+def fRxPadding : Nat := 0x008
+def fRxExtAddr : Nat := 0x200
+def canEffFlag : Nat := 0x80000000
+
+/-- `struct can_isotp_options`, field by field in the kernel's order -/
+structure IsotpOpts where
+  flags : Nat
+  frameTxtime : Nat
+  extAddress : Nat
+  txpadContent : Nat
+  rxpadContent : Nat
+  rxExtAddress : Nat
+  deriving DecidableEq, Repr
+
+def IsotpOpts.WF (o : IsotpOpts) : Prop :=
+  o.flags < 4294967296 ∧ o.frameTxtime < 4294967296 ∧ o.extAddress < 256 ∧ o.txpadContent < 256 ∧ o.rxpadContent < 256 ∧
+  o.rxExtAddress < 256
+
+def le32 (n : Nat) : List UInt8 :=
+  [UInt8.ofNat n, UInt8.ofNat (n / 256), UInt8.ofNat (n / 65536), UInt8.ofNat (n / 16777216)]
+
+def unLe32 (a b c d : UInt8) : Nat := a.toNat + 256 * b.toNat + 65536 * c.toNat + 16777216 * d.toNat
+
+/-- the 12 bytes handed to `setsockopt(SOL_CAN_ISOTP, CAN_ISOTP_OPTS)` -/
+def isotpOptsBlock (o : IsotpOpts) : List UInt8 :=
+  le32 o.flags ++ le32 o.frameTxtime ++
+  [UInt8.ofNat o.extAddress, UInt8.ofNat o.txpadContent, UInt8.ofNat o.rxpadContent, UInt8.ofNat o.rxExtAddress]
+
+/-- how the kernel reads the block -/
+def decodeIsotpOpts : List UInt8 → Option IsotpOpts
+  | [f0, f1, f2, f3, t0, t1, t2, t3, ea, tp, rp, ra] =>
+    some ⟨unLe32 f0 f1 f2 f3, unLe32 t0 t1 t2 t3, ea.toNat, tp.toNat, rp.toNat, ra.toNat⟩
+  | _ => none
+
+/-- `struct can_isotp_fc_options` / `struct can_isotp_ll_options`: three bytes in the kernel's order -/
+def tripleBlock (a b c : Nat) : List UInt8 := [UInt8.ofNat a, UInt8.ofNat b, UInt8.ofNat c]
+
+def decodeTriple : List UInt8 → Option (Nat × Nat × Nat)
+  | [a, b, c] => some (a.toNat, b.toNat, c.toNat)
+  | _ => none
+
+/-- `struct.pack("B", v)` of an optional setting: absent = 0, out of range = `struct.error` -/
+def optByte : Option Int → Option Nat
+  | none => some 0
+  | some z => if 0 ≤ z ∧ z < 256 then some z.toNat else none
+
+def flagIf (v : Option Int) (f : Nat) : Nat := if v.isSome then f else 0
+
+/-- the option block of an ISO-TP target: every optional setting goes to the field of its name and switches its flag on -/
+def isotpOptsOf (c : ISOTPCfg) : Option IsotpOpts :=
+  let ft := c.frameTxtime.getD 10
+  if ¬ (0 ≤ ft ∧ ft < 4294967296) then none else
+  match optByte c.extAddress, optByte c.txPadding, optByte c.rxPadding, optByte c.rxExtAddress with
+  | some ea, some tp, some rp, some ra =>
+    some ⟨flagIf c.extAddress fExtendAddr + flagIf c.txPadding fTxPadding + flagIf c.rxPadding fRxPadding +
+          flagIf c.rxExtAddress fRxExtAddr, ft.toNat, ea, tp, rp, ra⟩
+  | _, _, _, _ => none
+
+/-- `_calc_flags`: the CAN id as bound (11 bit, or 29 bit with the EFF flag) -/
+def calcFlags (id : Int) (ext : Bool) : Nat :=
+  if ext then (id % 536870912).toNat + canEffFlag else (id % 2048).toNat
+
+inductive SoVal
+  | block (bs : List UInt8)
+  | int (n : Nat)
+  deriving DecidableEq, Repr
+
+/-- socket level effects of `connect()`: the `setsockopt` calls in order, then the bind (`none` = a `struct.pack` range error
+    stopped `connect()` before; `some none` = the interface only) -/
+structure SockPlan where
+  opts : List (Nat × Nat × SoVal)
+  bind : Option (Option (Nat × Nat))
+  deriving DecidableEq, Repr
+
+def isotpSock (c : ISOTPCfg) : SockPlan :=
+  match isotpOptsOf c with
+  | none => ⟨[], none⟩
+  | some o =>
+    let first := [(solCanIsotp, canIsotpOpts, SoVal.block (isotpOptsBlock o))]
+    let ext := c.isExtended.getD false
+    let addr := some (some (calcFlags c.dst ext, calcFlags c.src ext))
+    if c.isFd.getD false then
+      match optByte (some (c.txDl.getD 64)) with
+      | none => ⟨first, none⟩
+      | some dl => ⟨first ++ [(solCanIsotp, canIsotpLlOpts, SoVal.block (tripleBlock 72 dl 0))], addr⟩
+    else ⟨first, addr⟩
+
+def canRawSock (isFd : Option Bool) : SockPlan :=
+  ⟨if isFd.getD false then [(solCanRaw, canRawFdFrames, SoVal.int 1)] else [], some none⟩
+
 end Gallia.Parse
